@@ -33,9 +33,11 @@ LEVEL_TEXT = (
     "their defaults), NonLinearPADMM, PDHG (linear / non-linear C), PGM and AcceleratedPGM (any step-size hook), the "
     "step() body equals the documented iteration on every state, for every option value, arbitrary operators / proximal "
     "maps / solvers, variables in arbitrary modules (real, complex, block); every accessor equals its documented "
-    "expression with and without supplied points; the constructors' argument checks (ADMM list lengths, PGM has_prox) and "
-    "initial states. The model is tied to the code by replaying random instances on the real "
-    "classes: full public state after each of k steps and all accessors, compared with the model's independent recomputation."
+    "expression with and without supplied points; the constructors' argument checks (ADMM list lengths, the empty constraint "
+    "list with each solver kind, PGM has_prox) and initial states; the memory of the Barzilai-Borwein step-size policies after "
+    "every step (all histories of accepted / rejected values). The model is tied to the code by replaying random instances on the real "
+    "classes: full public state (incl. step-size memory) after each of k steps and all accessors, compared with the model's "
+    "independent recomputation at 1e-8, and bit for bit on an exact-arithmetic stream of dyadic instances."
 )
 LEVEL_NOTE = (
     "Trusted: Lean kernel + Mathlib (axioms propext, Classical.choice, Quot.sound); real-number idealisation (the model runs "
